@@ -76,6 +76,9 @@ def scenarios(run):
             out.append((cfg, z + [('UpdateSettings', [(2, 0)]), RX(('PushPromise', 1, 20, ('Decoded', t2.REQ)))]))                         # disabled, not yet acknowledged
             out.append((cfg, z + [('UpdateSettings', [(2, 0)]), RX(('Settings', True, [])), RX(('PushPromise', 1, 20, ('Decoded', t2.REQ)))]))
         else:
+            # fixed 1fed9f8: an ALTSVC frame from the client before its first request must not disable push
+            out.append((cfg, [('Initiate',), RX(('AltSvc', 0, b'example.com', b'h2=":443"')), RX(('Headers', 1, False, None, ('Decoded', t2.REQ))),
+                              ('PushStream', 1, 2, t2.REQ, 0)]))
             # fixed 12650a7 (was F-C22-1): the server application tries to send HEADERS on a fresh even stream before the first request
             out.append((cfg, [('Initiate',), ('SendHeaders', 2, t2.RESP, 0, False, None, None, None), RX(('Headers', 3, False, None, ('Decoded', t2.REQ))),
                               ('PushStream', 3, 6, t2.REQ, 0)]))
